@@ -201,8 +201,11 @@ MergeExtendDB(D, src, trg) ==
     IN [D EXCEPT ![src] = src2, ![trg] = trg2]
 
 \* ---- the state machine ----------------------------------------------------
-VARIABLES ei, db, stack, vars, outs, oob, last
-rvars == <<ei, db, stack, vars, outs, oob, last>>
+VARIABLES ei, db, stack, vars, outs, oob, last, glog
+rvars == <<ei, db, stack, vars, outs, oob, last, glog>>
+\* glog (ghost, for C09): [iter |-> number of completed iterations of the running loop,
+\*                         att  |-> sequence of [line, iter, att] one per QUERY executed inside a loop,
+\*                         runs |-> sequence of [sid, n] one per finished loop: n = body executions]
 \* last = [e |-> event kind, sid |-> statement id, att |-> inserts executed, taken |-> exit taken]: what the step did
 \* (the trace specification matches it against the recorded event; model checking hides it with a VIEW)
 
@@ -228,7 +231,9 @@ Init == /\ ei \in 1..Len(RamEDBs)
         /\ outs = [x \in {} |-> {}]
         /\ oob = FALSE
         /\ last = [e |-> "Init", sid |-> -1, att |-> 0, taken |-> FALSE]
+        /\ glog = [iter |-> 0, att |-> <<>>, runs |-> <<>>]
 
+InLoop == \E i \in 1..Len(stack) : stack[i].s.k = "Loop"
 Running == stack # <<>>
 S == Top.s
 Done(st) == stack' = Norm(st)            \* continue after the current atomic statement
@@ -237,16 +242,19 @@ Ev(e, att, taken) == last' = [e |-> e, sid |-> S.sid, att |-> att, taken |-> tak
 Query == /\ Running /\ S.k = "Query"
          /\ LET r == Exec(S.op, [x \in {} |-> <<>>], db, vars) IN
             /\ db' = r.D /\ oob' = (oob \/ r.oob) /\ Ev("Query", r.att, FALSE)
+            /\ glog' = IF InLoop /\ "line" \in DOMAIN S
+                        THEN [glog EXCEPT !.att = Append(@, [line |-> S.line, iter |-> glog.iter, att |-> r.att])]
+                        ELSE glog
          /\ Done(Pop(stack)) /\ UNCHANGED <<ei, vars, outs>>
 Clear == /\ Running /\ S.k = "Clear"
          /\ db' = [db EXCEPT ![S.rel] = {}] /\ Ev("Clear", 0, FALSE)
-         /\ Done(Pop(stack)) /\ UNCHANGED <<ei, vars, outs, oob>>
+         /\ Done(Pop(stack)) /\ UNCHANGED <<ei, vars, outs, oob, glog>>
 Swap == /\ Running /\ S.k = "Swap"
         /\ db' = [db EXCEPT ![S.a] = db[S.b], ![S.b] = db[S.a]] /\ Ev("Swap", 0, FALSE)
-        /\ Done(Pop(stack)) /\ UNCHANGED <<ei, vars, outs, oob>>
+        /\ Done(Pop(stack)) /\ UNCHANGED <<ei, vars, outs, oob, glog>>
 MergeExtend == /\ Running /\ S.k = "MergeExtend"
                /\ db' = MergeExtendDB(db, S.src, S.trg) /\ Ev("MergeExtend", 0, FALSE)
-               /\ Done(Pop(stack)) /\ UNCHANGED <<ei, vars, outs, oob>>
+               /\ Done(Pop(stack)) /\ UNCHANGED <<ei, vars, outs, oob, glog>>
 IO == /\ Running /\ S.k = "IO"
       /\ IF S.op = "input"
            THEN /\ db' = [db EXCEPT ![S.rel] = LET T == @ \cup SeqSet(RamEDBs[ei][S.rel]) IN
@@ -255,13 +263,13 @@ IO == /\ Running /\ S.k = "IO"
            ELSE /\ outs' = (S.rel :> db[S.rel]) @@ outs
                 /\ UNCHANGED db
       /\ Ev("IO", 0, FALSE)
-      /\ Done(Pop(stack)) /\ UNCHANGED <<ei, vars, oob>>
+      /\ Done(Pop(stack)) /\ UNCHANGED <<ei, vars, oob, glog>>
 Assign == /\ Running /\ S.k = "Assign"
           /\ LET v == EvalE(S.value, [x \in {} |-> <<>>], db, vars) IN
              /\ vars' = (S.var :> (IF v = <<>> THEN 0 ELSE v[1])) @@ vars
              /\ oob' = (oob \/ v = <<>>)
           /\ Ev("Assign", 0, FALSE)
-          /\ Done(Pop(stack)) /\ UNCHANGED <<ei, db, outs>>
+          /\ Done(Pop(stack)) /\ UNCHANGED <<ei, db, outs, glog>>
 \* CALL: the frame stays (cursor 2 = "returning") while the subroutine body runs above it
 CallBegin == /\ Running /\ S.k = "Call" /\ Top.i = 1
              /\ Ev("CallBegin", 0, FALSE)
@@ -269,21 +277,24 @@ CallBegin == /\ Running /\ S.k = "Call" /\ Top.i = 1
                          IN  LET n == Norm(st) IN
                              \* an empty subroutine returns at once: keep the call frame on top
                              IF Len(n) < Len(stack) THEN Pop(stack) \o <<[Top EXCEPT !.i = 2]>> ELSE n
-             /\ UNCHANGED <<ei, db, vars, outs, oob>>
+             /\ UNCHANGED <<ei, db, vars, outs, oob, glog>>
 CallEnd == /\ Running /\ S.k = "Call" /\ Top.i = 2
            /\ Ev("CallEnd", 0, FALSE)
-           /\ Done(Pop(stack)) /\ UNCHANGED <<ei, db, vars, outs, oob>>
+           /\ Done(Pop(stack)) /\ UNCHANGED <<ei, db, vars, outs, oob, glog>>
 \* LOOP: cursor 1 = not entered, 2 = body running above, the body frame is re-pushed by LoopIter
 LoopBegin == /\ Running /\ S.k = "Loop" /\ Top.i = 1
              /\ Ev("LoopBegin", 0, FALSE)
              /\ stack' = Norm(Append(Pop(stack) \o <<[Top EXCEPT !.i = 2]>>, Frame(S.body)))
+             /\ glog' = [glog EXCEPT !.iter = 0]
              /\ UNCHANGED <<ei, db, vars, outs, oob>>
 LoopIter == /\ Running /\ S.k = "Loop" /\ Top.i = 2          \* the body ran to its end: next iteration
             /\ Ev("LoopIter", 0, FALSE)
             /\ stack' = Norm(Append(stack, Frame(S.body)))
+            /\ glog' = [glog EXCEPT !.iter = @ + 1]
             /\ UNCHANGED <<ei, db, vars, outs, oob>>
 LoopEnd == /\ Running /\ S.k = "Loop" /\ Top.i = 3           \* an EXIT fired inside
            /\ Ev("LoopEnd", 0, FALSE)
+           /\ glog' = [glog EXCEPT !.runs = Append(@, [sid |-> S.sid, n |-> glog.iter + 1]), !.iter = 0]
            /\ Done(Pop(stack)) /\ UNCHANGED <<ei, db, vars, outs, oob>>
 \* EXIT: when the condition holds unwind to the innermost enclosing loop frame
 RECURSIVE Unwind(_)
@@ -295,12 +306,12 @@ Exit == /\ Running /\ S.k = "Exit"
            /\ oob' = (oob \/ c = "U")
            /\ Ev("Exit", 0, c = "T")
            /\ stack' = IF c = "T" THEN Unwind(Pop(stack)) ELSE Norm(Pop(stack))
-        /\ UNCHANGED <<ei, db, vars, outs>>
+        /\ UNCHANGED <<ei, db, vars, outs, glog>>
 
 Next == \/ Query \/ Clear \/ Swap \/ MergeExtend \/ IO \/ Assign \/ CallBegin \/ CallEnd
         \/ LoopBegin \/ LoopIter \/ LoopEnd \/ Exit
 Spec == Init /\ [][Next]_rvars
-View == <<ei, db, stack, vars, outs, oob>>
+View == <<ei, db, stack, vars, outs, oob, glog>>
 
 (***************************************************************************)
 (* Properties of the real RAM program (direction A)                        *)
@@ -322,6 +333,18 @@ LoopHead == AtLoopHead =>
 \* the loop is left only when nothing new was found
 ExitAtFixpoint == (last.e = "Exit" /\ last.taken) =>
                      \A n \in NewRels : (BaseOf(n, "@new_") \in RelNamesR /\ ~IsEqrel(n)) => db[n] \subseteq db[BaseOf(n, "@new_")]
+\* C09: the real RAM does exactly what a complete, non-redundant semi-naive evaluation must do (SemiNaiveOracle.tla):
+\* RamSN[ei] = [have, loops |-> (loop sid :> K), att |-> (source line of a recursive clause :> <<Att(c,1..K)>>)]
+RECURSIVE SumAtt(_, _, _, _)
+SumAtt(lg, i, line, it) == IF i > Len(lg) THEN 0
+                           ELSE (IF lg[i].line = line /\ lg[i].iter = it THEN lg[i].att ELSE 0) + SumAtt(lg, i + 1, line, it)
+SemiNaiveOK ==
+    (Finished /\ ~oob /\ RamSN[ei].have) =>
+        /\ \A i \in 1..Len(glog.runs) :
+               glog.runs[i].sid \in DOMAIN RamSN[ei].loops =>
+                   glog.runs[i].n = (IF RamSN[ei].loops[glog.runs[i].sid] = 0 THEN 1 ELSE RamSN[ei].loops[glog.runs[i].sid])
+        /\ \A ln \in DOMAIN RamSN[ei].att :
+               \A j \in 1..Len(RamSN[ei].att[ln]) : SumAtt(glog.att, 1, ln, j - 1) = RamSN[ei].att[ln][j]
 \* temporaries are empty when the program ends
 TempsCleared == Finished => \A r \in DeltaRels \cup NewRels : db[r] = {}
 =============================================================================
